@@ -40,12 +40,12 @@ def listTok (vs : List Elt) : String :=
 
 def opTok : Op → String
   | .pushBack r => s!"pushBack {refTok r}"
-  | .pushBackMove v => s!"pushBackMove {v}"
-  | .emplaceBack v => s!"emplaceBack {v}"
+  | .pushBackMove r => s!"pushBackMove {refTok r}"
+  | .emplaceBack r => s!"emplaceBack {refTok r}"
   | .pushBackDefault => "pushBackDefault"
   | .popBack => "popBack"
   | .insert p r => s!"insert {p} {refTok r}"
-  | .emplace p v => s!"emplace {p} {v}"
+  | .emplace p r => s!"emplace {p} {refTok r}"
   | .insertN p n r => s!"insertN {p} {n} {refTok r}"
   | .insertRange p vs => s!"insertRange {p} {listTok vs}"
   | .erase f l => s!"erase {f} {l}"
@@ -91,7 +91,9 @@ def pickRef (a : Arr) (st : GS) (mk : Ref → Op) : Gen (Op × GS) := do
   if wantSlot && a.size > 0 then
     let i ← rnd a.size
     let op := mk (.slot i)
-    if legal st.mx a op then return (op, st)   -- any element may be passed: the repaired code copies it first
+    -- any element may be passed to the guarded `const T&` operations (the repaired code copies it first);
+    -- push_back(T&&)/emplace_back/emplace are not guarded in /repo: only where the model says it is safe
+    if legal st.mx a op && unguardedOK a op then return (op, st)
   let (v, st) := fresh st
   return (mk (.ext v), st)
 
@@ -105,20 +107,22 @@ def genOp (a : Arr) (st : GS) (big : Bool) : Gen (Op × GS) := do
   let moveOnly := st.et == "M"
   match k with
   | 0 | 1 | 2 =>
-    if moveOnly then let (v, st) := fresh st; return (.pushBackMove v, st)
+    if moveOnly then (if st.et == "I" then (do let (v, st) := fresh st; return (.pushBackMove (.ext v), st)) else pickRef a st .pushBackMove)
     else pickRef a st .pushBack
-  | 3 => let (v, st) := fresh st; return (.pushBackMove v, st)
-  | 4 => let (v, st) := fresh st; return (.emplaceBack v, st)
+  | 3 => if st.et == "I" then (do let (v, st) := fresh st; return (.pushBackMove (.ext v), st)) else pickRef a st .pushBackMove
+  | 4 => if moveOnly then (do let (v, st) := fresh st; return (.emplaceBack (.ext v), st)) else pickRef a st .emplaceBack
   | 5 => return (.pushBackDefault, st)
   | 6 | 100 => if sz > 0 then return (.popBack, st) else return (.pushBackDefault, st)
   | 7 | 8 =>
     let p ← rnd (sz + 1)
-    if moveOnly then let (v, st) := fresh st; return (.emplace p v, st)
+    if moveOnly then let (v, st) := fresh st; return (.emplace p (.ext v), st)
     else pickRef a st (.insert p)
-  | 9 => let p ← rnd (sz + 1); let (v, st) := fresh st; return (.emplace p v, st)
+  | 9 =>
+    let p ← rnd (sz + 1)
+    if moveOnly then (do let (v, st) := fresh st; return (.emplace p (.ext v), st)) else pickRef a st (.emplace p)
   | 10 | 11 =>
     let p ← rnd (sz + 1); let n ← rnd grow
-    if moveOnly then let (v, st) := fresh st; return (.emplace p v, st)
+    if moveOnly then let (v, st) := fresh st; return (.emplace p (.ext v), st)
     else if sz + n ≤ st.mx then pickRef a st (.insertN p n) else return (.shrinkToFit, st)
   | 12 | 13 =>
     let p ← rnd (sz + 1); let n ← rnd grow
@@ -212,7 +216,7 @@ partial def genNormal (out : IO.FS.Stream) (et : String) (mx : Nat) (big : Bool)
 
 /-- aliasing streams: build an array, then one operation whose value argument is an element that the
 operation reallocates (`realloc`) or shifts (`shift`).  Expected observation = specification. -/
-partial def genAlias (out : IO.FS.Stream) (et : String) (mx : Nat) (reallocOnly : Bool) (n : Nat) (g : SplitMix) : IO Unit := do
+partial def genAlias (out : IO.FS.Stream) (et : String) (mx : Nat) (reallocOnly : Bool) (rvalue : Bool) (n : Nat) (g : SplitMix) : IO Unit := do
   let mut g := g
   let mut left := n
   while left > 0 do
@@ -237,6 +241,13 @@ partial def genAlias (out : IO.FS.Stream) (et : String) (mx : Nat) (reallocOnly 
     -- choose an operation for which `refOK` is false
     let p := if isFull then p0 else min p0 i      -- in place: the element must be at or after p
     let op : Op :=
+      if rvalue then
+        -- the rvalue / emplace family (not guarded by commit 06f34988)
+        match kind with
+        | 0 => if isFull then .emplaceBack (.slot i) else .emplace p (.slot i)
+        | 1 => if isFull then .pushBackMove (.slot i) else .emplace p (.slot i)
+        | _ => .emplace p (.slot i)
+      else
       match kind with
       | 0 => if isFull then .pushBack (.slot i) else .insert p (.slot i)
       | 1 => .insert p (.slot i)
@@ -448,8 +459,10 @@ def main (args : List String) : IO UInt32 := do
     | "int" => genNormal out "I" 2147483647 false n g
     | "moveonly" => genNormal out "M" 2147483647 false n g
     | "small" => genNormal out "S" 127 true n g
-    | "alias" => genAlias out "C" 2147483647 false n g
-    | "alias_asan" => genAlias out "A" 2147483647 true (min n 40) g
+    | "alias" => genAlias out "C" 2147483647 false false n g
+    | "alias_asan" => genAlias out "A" 2147483647 true false (min n 40) g
+    | "alias_emplace" => genAlias out "C" 2147483647 false true n g
+    | "alias_emplace_asan" => genAlias out "A" 2147483647 true true (min n 40) g
     | "ptr" => genPtr out n g
     | _ => IO.eprintln s!"unknown mode {mode}"; return 2
     return 0
